@@ -408,6 +408,10 @@ class Pool():
                     if not flag:
                         if worker.id not in self._closed: # if a worker died while enqueueing, its death has already been handled but we will (possibly) end up here
                             handle_death(worker)
+                    elif worker.id in self._closed:
+                        # a result which was already in the pipe when the worker's death has been handled while enqueueing,
+                        # its input has been rescheduled (or dropped) together with the rest of the worker's pending inputs
+                        logger.debug('Ignoring a late result from {} whose death has already been handled', worker)
                     else:
                         handle_new_result(worker, result)
 
